@@ -8,6 +8,7 @@ import argparse
 import gc
 import zlib
 import itertools
+import re
 
 import numpy as np
 
@@ -44,11 +45,13 @@ def check_c08(tier, seed):
     maxlen = 3 if tier == "quick" else 4
     b = Bounded(
         "C08.bounded",
-        bound=f"all histories of length <= {maxlen} over 13 statement kinds (op on tensor / writeable user array / read-only user array / view of user array / the view's base array / out= array / out= view of a user array, in-place update, failing op, backward, clear_graph, drop oldest result, drop newest result) followed by dropping the remaining results in both orders",
+        bound=f"all histories of length <= {maxlen} over 18 statement kinds (op on tensor / writeable user array / read-only user array / view of user array / the view's base array / a view the USER made read-only of that writeable base / np.broadcast_to of a writeable array (a read-only view by construction) / out= array / out= view of a user array, in-place update, in-place update whose operand is a natively read-only array / a tensor wrapping one / out= form, failing op, backward, clear_graph, drop oldest result, drop newest result) followed by dropping the remaining results in both orders",
         rule="case = the statement list + final drop order; non-trivial = at least one op recorded with memory guarding on",
     )
     mg.turn_memory_guarding_on()
-    kinds = ["op-tensor", "op-array", "op-roarray", "op-view", "op-viewbase", "op-out", "op-out-view", "inplace", "fail", "backward", "clear", "drop-old", "drop-new"]
+    b.fail_cap = 1000000  # every failing history is reported: the known finding F26b is an exact list, nothing may hide behind it
+    kinds = ["op-tensor", "op-array", "op-roarray", "op-view", "op-viewbase", "op-out", "op-out-view", "inplace", "fail", "backward", "clear", "drop-old", "drop-new",
+             "op-roview", "op-broadcast-view", "inplace-ro-operand", "inplace-ro-tensor-operand", "inplace-out-ro-operand"]
 
     def run(hist, final_order):
         A = rng.uniform(1, 2, size=(4,))  # writeable user array
@@ -57,13 +60,18 @@ def check_c08(tier, seed):
         Bv = rng.uniform(1, 2, size=(6,))
         V = Bv[1:5]  # view of a writeable user array
         O = np.zeros((4,))  # out= target
+        Vr = Bv[0:4]
+        Vr.flags.writeable = False  # a view of the writeable user array that the user made read-only beforehand
+        Ab = rng.uniform(1, 2, size=(4,))
+        Vb = np.broadcast_to(Ab, (2, 4))  # read-only by construction; making it writeable would be unsafe
         T = mg.tensor(rng.uniform(1, 2, size=(4,)))
         Tdata = T.data
-        orig = {"A": True, "R": False, "Bv": True, "V": True, "O": True, "Tdata": True}
-        arrays = {"A": A, "R": Rr, "Bv": Bv, "V": V, "O": O, "Tdata": Tdata}
+        orig = {"A": True, "R": False, "Bv": True, "V": True, "O": True, "Tdata": True, "Vr": False, "Ab": True, "Vb": False}
+        arrays = {"A": A, "R": Rr, "Bv": Bv, "V": V, "O": O, "Tdata": Tdata, "Vr": Vr, "Ab": Ab, "Vb": Vb}
         results = []
         cleared = False
         problems = []
+        marks = run.marks = set()
         for k in hist:
             try:
                 if k == "op-tensor":
@@ -82,6 +90,20 @@ def check_c08(tier, seed):
                     results.append(mg.multiply(T, 3.0, out=V))
                 elif k == "inplace":
                     T[:2] = 0.5
+                elif k == "op-roview":
+                    if not Bv.flags.writeable:
+                        marks.add("Vr")  # its base is locked on behalf of an earlier, still live operation at this moment
+                    results.append(mg.add(Vr, T))
+                elif k == "op-broadcast-view":
+                    if not Ab.flags.writeable:
+                        marks.add("Vb")
+                    results.append(mg.add(Vb, T))
+                elif k == "inplace-ro-operand":
+                    T[...] = Rr
+                elif k == "inplace-ro-tensor-operand":
+                    T += mg.Tensor(Rr, copy=False)
+                elif k == "inplace-out-ro-operand":
+                    mg.multiply(Rr, 2.0, out=T)
                 elif k == "fail":
                     try:
                         mg.add(T, np.ones((5,)) if True else None) if False else mg.add(A, np.ones((5,)))
@@ -139,10 +161,10 @@ def check_c08(tier, seed):
     orders = [lambda n: range(n), lambda n: reversed(range(n))]
     for L in range(1, maxlen + 1):
         for hist in itertools.product(kinds, repeat=L):
-            if not any(k.startswith("op") for k in hist):
+            if not any(k.startswith(("op", "inplace-")) for k in hist):
                 continue
             for oi, fo in enumerate(orders):
-                desc = dict(history=list(hist), final_drop=("fifo", "lifo")[oi])
+                desc = dict(history=list(hist), final_drop=("fifo", "lifo")[oi], key="|".join(hist) + "/" + ("fifo", "lifo")[oi])
                 b.count("guard")
                 try:
                     problems = run(hist, fo)
@@ -150,7 +172,8 @@ def check_c08(tier, seed):
                     b.error(f"{hist}: {type(e).__name__}: {e}")
                     continue
                 for p in problems[:2]:
-                    b.fail("C08.bounded.flag", desc, p)
+                    m_ = re.match(r"at quiescence: (V[rb])\.flags", p)
+                    b.fail("C08.bounded.flag", dict(desc, natively_read_only_view_used_while_its_base_was_locked=bool(m_ and m_.group(1) in run.marks)) if m_ else desc, p)
                 b.case(desc)
     # a NumPy view taken from an array while it was locked counts as having its owner's original flag
     A = rng.uniform(1, 2, size=(4,))
